@@ -112,6 +112,9 @@ def gen(seed: int, tier: str, focus: str) -> dict[str, Any]:
             tid += 1
             ops.append({"t": round(rng.uniform(0.0, horizon), 6), "op": "out_k", "id": tid})
         ds = {"during_stop": rng.random() < 0.7, "stop_lag": rng.choice([0.3, 1.5, None]),
+              # a plain frame for the keyed address is forwarded right behind the ConnectResponse of every connection - the
+              # first one reaches the client while XKNX.start() has not returned yet
+              "early_plain": rng.random() < 0.5,
               "at": rng.choice([0.0005, 0.0015, 0.05, 0.2]), "second_life": rng.random() < 0.8}
     ops.sort(key=lambda o: o["t"])
     cfg = {"mode": "e2e", "focus": focus, "ds": ds, "transport": transport, "horizon": horizon, "batch": 1 if rng.random() < 0.8 else 3,
@@ -254,6 +257,17 @@ def run(plan: dict[str, Any]):
     gw = SimGateway(net, script=dict(plan.get("gw") or {}, expire_channels_after=120.0), bus=bus)
     sender = ReliableSender(R, gw)
     obs["sender"] = sender
+    if ds and ds.get("early_plain"):
+        early_n = [9400]
+
+        def on_connected(cid):
+            early_n[0] += 1
+            i = early_n[0]
+            obs["k_plain"].add(i)
+            fr = W.cemi_ldata(W.L_DATA_IND, BUS_DEV, GA_K, tpci_apci=bytes((0x00, 0x80)) + i.to_bytes(2, "big"))
+            gw.send_request(cid, fr, lat=0.0)
+            R.extra_faults["plain_frame_to_keyed_address_behind_connect_response"] += 1
+        gw.on_connected = on_connected
 
     class Q(asyncio.Queue):
         def put_nowait(self, item):
